@@ -172,12 +172,19 @@ func sharedChangeEvents(r *vk.Run) {
 				}
 			}()
 		}
+		// in a third of the cases the other subscriber is not a filtering one but a lossy one that never receives: what
+		// its merger does with the changes it is holding back must stay private to it just the same
+		idleLossy := rng.Chance(1, 3)
+		openOther := openFiltering
+		if idleLossy {
+			openOther = func() { _ = col.Pull(ctx, resource.WithBackpressure(false), resource.WithUpdatesOnly(rng.Bool())) }
+		}
 		first := rng.Bool()
 		if first {
 			openPlain()
-			openFiltering()
+			openOther()
 		} else {
-			openFiltering()
+			openOther()
 			openPlain()
 		}
 		if _, ok := r.MustQuiesce("c07-shared-open"); !ok {
@@ -185,6 +192,9 @@ func sharedChangeEvents(r *vk.Run) {
 			return
 		}
 		steps := rng.Range(1, 4)
+		if idleLossy {
+			steps = rng.Range(3, 6) // the merger only merges from the third change on (one is with the forwarder, one pending)
+		}
 		cur := from
 		type wrote struct{ old, new int32 }
 		var log []wrote
